@@ -9,6 +9,7 @@ package main
 // store, and both requests must have been answered.
 
 import (
+	"time"
 	"github.com/tinode/chat/server/auth"
 	"fmt"
 	"strings"
@@ -184,3 +185,148 @@ func vfAtLoadRun(r *vfev.Report, nbp *int, shard, shards int, target string, nop
 
 func TestVerifC08AtLoad(t *testing.T) { vfAtLoad("C08", "at-load") }
 func TestVerifC13AtLoad(t *testing.T) { vfAtLoad("C13", "at-load") }
+
+// ---- the same enumeration around the unload and the deletion of a topic ------------------------------
+//
+// S is the idle unload of the group (its kill timer fires, the hub unregisters it) or the owner's
+// {del what=topic}; R is a request by another user, handled completely at every event of S. Afterwards
+// both are answered, the loaded topic (if any) agrees with the store, and the topic - if it still
+// exists - serves a member's {sub}.
+
+func vfAtEnd(prop, part string) {
+	r := vfev.New(prop, part)
+	defer r.Finish()
+	defer r.RecoverPanic()
+	shard, shards := vfev.Shard()
+	menu := []vfAclOp{
+		{Kind: "sub", Actor: 2, Mode: ""}, {Kind: "setpriv", Actor: 2}, {Kind: "setself", Actor: 2, Mode: "JRW"}, {Kind: "unsub", Actor: 2},
+		{Kind: "setother", Actor: 1, Target: 2, Mode: "JRWPA"}, {Kind: "setpub", Actor: 0}, {Kind: "leave", Actor: 1},
+	}
+	nb := 0
+	for _, what := range []string{"unload", "delete"} {
+		for _, op := range menu {
+			if what == "unload" && op.Kind == "leave" {
+				continue
+			}
+			events := 0
+			for k := 0; k <= events+1; k++ {
+				nb++
+				if k > 0 && nb%shards != shard {
+					continue
+				}
+				var injected bool
+				var sCode, opCode, after int
+				var diffs []string
+				var exists bool
+				where := "afterwards"
+				res := vsched.Run(vsched.Config{MaxSteps: 4000000}, func() {
+					t := vfBuildTW(vfTWOpts{Users: 4, PreSub: []int{1, 2}, Admin: []int{1}})
+					if what == "unload" {
+						for _, c := range t.cl {
+							if c.sess != nil && c.sess.getSub(t.grp) != nil {
+								c.Req(`{"leave":{"id":"$ID","topic":"%s"}}`, t.grp)
+							}
+						}
+					} else {
+						// u2 is subscribed but not attached; u0 and u1 stay attached
+						t.cl[2].Req(`{"leave":{"id":"$ID","topic":"%s"}}`, t.grp)
+					}
+					for _, c := range t.cl {
+						c.Take()
+					}
+					req, c := t.aclRequest(op)
+					n := 0
+					prev := memdb.OnCall
+					opID := ""
+					event := func(ev string) {
+						if injected {
+							return
+						}
+						n++
+						if n == k {
+							injected = true
+							where = fmt.Sprintf("at event %d (%s)", k, ev)
+							opID = c.id()
+							c.Post(strings.Replace(req, "$ID", opID, 1))
+							vsched.Quiesce()
+						}
+					}
+					memdb.OnCall = func(name string) {
+						if prev != nil {
+							prev(name)
+						}
+						event("before store call " + name)
+					}
+					memdb.OnReturn = func(name string) { event("after store call " + name) }
+					vatomic.OnOp = func(write bool) { event("atomic operation") }
+					restore := func() { memdb.OnCall, memdb.OnReturn, vatomic.OnOp = prev, nil, nil }
+					vsched.OnKill(restore)
+					if what == "unload" {
+						vsched.Advance(idleMasterTopicTimeout + 2*time.Second)
+						sCode = 200
+					} else {
+						sCode, _ = t.cl[0].Req(`{"del":{"id":"$ID","topic":"%s","what":"topic","hard":true}}`, t.grp)
+					}
+					restore()
+					if k == 0 {
+						events = n
+					}
+					if !injected {
+						opCode, _ = c.Req(req)
+					} else {
+						vsched.Quiesce()
+						for _, f := range c.Take() {
+							if f.Msg.Ctrl != nil && f.Msg.Ctrl.Id == opID {
+								opCode = f.Msg.Ctrl.Code
+							} else if f.Msg.Meta != nil && f.Msg.Meta.Id == opID && opCode == 0 {
+								opCode = 200
+							}
+						}
+					}
+					vsched.Quiesce()
+					s := t.snap()
+					exists = s.alive()
+					diffs = s.cacheVsStore()
+					if exists {
+						after, _ = t.cl[1].Req(`{"sub":{"id":"$ID","topic":"%s"}}`, t.grp)
+					}
+				})
+				name := fmt.Sprintf("%s during %s %s", op, what, where)
+				r.Eval(1)
+				r.Distinct(fmt.Sprintf("%s/%s/%d", what, op, k))
+				r.States++
+				r.Transitions += int64(res.Steps)
+				r.Traces++
+				det := map[string]any{"case": name, "first": sCode, "request": opCode, "exists": exists, "differences": diffs, "member_sub_afterwards": after}
+				for _, v := range vfStatusViolations(res) {
+					r.Violation("C14:at-end:"+v.Key, name+": "+v.What, det)
+				}
+				r.Outcome(fmt.Sprintf("%s/%s first=%d req=%d exists=%v after=%d", what, op.Kind, sCode/100, opCode/100, exists, after/100))
+				if sCode == 0 {
+					r.Violation("C13:unanswered:at-"+what+":deltopic", name+": the {del topic} was never answered", det)
+					r.Violation("C14:request-unanswered:at-"+what+":deltopic", name+": the {del topic} was never answered", det)
+				}
+				if opCode == 0 {
+					r.Violation("C13:unanswered:at-"+what+":"+op.Kind, name+": the request was never answered", det)
+					r.Violation("C14:request-unanswered:at-"+what+":"+op.Kind, name+": the request was never answered", det)
+				}
+				for _, d := range diffs {
+					field := d
+					if i := strings.Index(d, ":"); i > 0 {
+						field = strings.Fields(d[:i])[0]
+					}
+					r.Violation("C08:cache-differs-from-store:during-"+what+":"+field+":"+op.Kind, fmt.Sprintf("%s (answered %d): %s", name, opCode, d), det)
+				}
+				if exists && (after == 0 || after >= 500) {
+					r.Violation("C14:topic-unusable:after-"+what+":"+op.Kind, fmt.Sprintf("%s: the topic exists, a member's {sub} afterwards is answered %d", name, after), det)
+					r.Violation("C13:unanswered:after-"+what+":"+op.Kind, fmt.Sprintf("%s: the topic exists, a member's {sub} afterwards is answered %d", name, after), det)
+				}
+			}
+		}
+	}
+	r.Sample("sub(u2) during unload at event 4 (atomic operation)")
+}
+
+func TestVerifC14AtEnd(t *testing.T) { vfAtEnd("C14", "at-end") }
+func TestVerifC13AtEnd(t *testing.T) { vfAtEnd("C13", "at-end") }
+func TestVerifC08AtEnd(t *testing.T) { vfAtEnd("C08", "at-end") }
